@@ -5,6 +5,7 @@ package main
 
 import (
 	"fmt"
+	"math/big"
 	"os"
 	"path/filepath"
 	"strconv"
@@ -51,7 +52,14 @@ type SpecFunc struct {
 	Pkg     string
 }
 
+type SplitSpec struct {
+	Expr   *SNode
+	Src    string
+	Values []string
+}
+
 type FuncContract struct {
+	Split     *SplitSpec
 	Key       string // "Name" or "Recv.Name"
 	Pkg       string
 	Mode      string // "int" (default) or "bv"
@@ -387,7 +395,34 @@ func parseContractFile(path string, pkg string, pc *PkgContracts) error {
 			} else {
 				return bad("modifies outside func")
 			}
-		case "ghost", "split", "havoc":
+		case "split":
+			// split <expr> pow2 <lo> <hi>   |   split <expr> values v1 v2 ...
+			f := strings.Fields(rest)
+			if cur == nil || len(f) < 3 {
+				return bad("split <expr> pow2 lo hi | split <expr> values ...")
+			}
+			e, err := parseSpec(f[0])
+			if err != nil {
+				return bad("%v", err)
+			}
+			sp := &SplitSpec{Expr: e, Src: f[0]}
+			switch f[1] {
+			case "pow2":
+				if len(f) != 4 {
+					return bad("split pow2 needs lo hi")
+				}
+				lo, _ := strconv.Atoi(f[2])
+				hi, _ := strconv.Atoi(f[3])
+				for k := lo; k <= hi; k++ {
+					sp.Values = append(sp.Values, new(big.Int).Lsh(big.NewInt(1), uint(k)).String())
+				}
+			case "values":
+				sp.Values = f[2:]
+			default:
+				return bad("split: unknown mode %s", f[1])
+			}
+			cur.Split = sp
+		case "ghost", "havoc":
 			// ghost name = expr   |  split expr in lo..hi
 			c := &Clause{Kind: kw, Src: rest, Line: rl.line, File: path}
 			if kw == "ghost" {
